@@ -64,49 +64,59 @@ def run(chk):
     hits = 0
     evaluations = 0
     memo_lines, memo_py = [], []
+    from props import c05
+    NS = {'svg': gen.SVG, 'h': gen.XHTML}
     for _ in range(n_docs):
-        kind, top_spec = doc(rng)
+        # 15 %: namespace-aware trees with foreign elements, queried with a prefix map and selectors that put an HTML-only
+        # pseudo-class next to a prefixed name (state swapped in for HTML-only lists must be swapped back for the next element)
+        leak = rng.random() < 0.15
+        if leak:
+            kind, top_spec = c05.doc_for(rng, rng.choice(['xml', 'xml', 'xhtml', 'html5']), True)
+        else:
+            kind, top_spec = doc(rng)
+        ns = NS if leak else None
+        pool = [c05.mixed(rng) for _ in range(6)] if leak else SELECTORS
         top = gen.build_doc(kind, top_spec)
         els = gen.elements(top)
         if not els:
             continue
         before = snapshot(top)
         # (a) one matcher object, many questions
-        for sel in rng.sample(SELECTORS, 4):
-            c = sv.compile(sel)
+        for sel in rng.sample(pool, 4):
+            c = sv.compile(sel, ns)
             scope = rng.choice([top] + els[:2])
-            m = cm.CSSMatch(c.selectors, scope, None, 0)
+            m = cm.CSSMatch(c.selectors, scope, ns, 0)
             order = [rng.choice(els) for _ in range(min(40, 2 * len(els)))]
             seen = set()
             for e in order:
                 evaluations += 1
                 got = m.match(e)
-                fresh = cm.CSSMatch(c.selectors, scope, None, 0).match(e)
+                fresh = cm.CSSMatch(c.selectors, scope, ns, 0).match(e)
                 if id(e) in seen:
                     hits += 1
                 seen.add(id(e))
                 if got != fresh:
                     bad.append({'what': 'answer depends on earlier questions to the same matcher', 'selector': sel, 'kind': kind,
-                                'tree': top_spec, 'scope': enc.path_of(scope), 'history': [enc.path_of(x) for x in order[:order.index(e) + 1]],
+                                'tree': top_spec, 'ns': ns, 'scope': enc.path_of(scope), 'history': [enc.path_of(x) for x in order[:order.index(e) + 1]],
                                 'with_history': got, 'alone': fresh})
                     break
             # select (shared memo) vs per-element match with the same scope
             full = [id(x) for x in c.select(top)]
-            alone = [id(x) for x in els if cm.CSSMatch(c.selectors, top, None, 0).match(x)]
+            alone = [id(x) for x in els if cm.CSSMatch(c.selectors, top, ns, 0).match(x)]
             if full != alone:
-                bad.append({'what': 'select() differs from asking about each element alone', 'selector': sel, 'kind': kind, 'tree': top_spec})
+                bad.append({'what': 'select() differs from asking about each element alone', 'selector': sel, 'kind': kind, 'tree': top_spec, 'ns': ns})
         # (b) call sequences vs a pristine copy
         pristine = copy.deepcopy(top)
         pels = gen.elements(pristine)
         for _ in range(rng.randint(2, 25) if not quick else rng.randint(2, 8)):
-            sel = rng.choice(SELECTORS)
+            sel = rng.choice(pool)
             i = rng.randrange(len(els))
             op = rng.choice(['select', 'match', 'filter', 'closest', 'select_one'])
             evaluations += 1
 
             def call(t_top, t_el):
                 tgt = t_top if op in ('select', 'select_one', 'filter') and rng_choice else t_el
-                r_ = getattr(sv, op)(sel, tgt)
+                r_ = getattr(sv, op)(sel, tgt, ns)
                 if isinstance(r_, list):
                     return [enc.path_of(x) for x in r_]
                 return enc.path_of(r_) if isinstance(r_, bs4.Tag) else r_
@@ -114,7 +124,7 @@ def run(chk):
             a = call(top, els[i])
             b = call(pristine, pels[i])
             if a != b:
-                bad.append({'what': 'answer differs from the same call on a pristine copy', 'selector': sel, 'op': op, 'kind': kind, 'tree': top_spec})
+                bad.append({'what': 'answer differs from the same call on a pristine copy', 'selector': sel, 'op': op, 'kind': kind, 'tree': top_spec, 'ns': ns})
         after = snapshot(top)
         if after != before:
             bad.append({'what': 'the document changed (serialisation, attribute dicts or node identities)', 'kind': kind, 'tree': top_spec})
@@ -175,16 +185,28 @@ def replay(chk, path):
     data = json.load(open(path))
     if 'history' in data:
         top = gen.build_doc(data['kind'], matchcorr._untuple(data['tree']))
-        c = sv.compile(data['selector'])
+        ns = data.get('ns')
+        c = sv.compile(data['selector'], ns)
         scope = enc.node_at(top, data['scope'])
-        m = cm.CSSMatch(c.selectors, scope, None, 0)
+        m = cm.CSSMatch(c.selectors, scope, ns, 0)
         got = None
         for p in data['history']:
             e = enc.node_at(top, p)
             got = m.match(e)
-        alone = cm.CSSMatch(c.selectors, scope, None, 0).match(e)
+        alone = cm.CSSMatch(c.selectors, scope, ns, 0).match(e)
         print(json.dumps({'with_history': got, 'alone': alone}))
         if got != alone:
+            print(f'VIOLATION property={PID} replay={path}')
+            return 1
+    elif str(data.get('what', '')).startswith('select() differs'):
+        top = gen.build_doc(data['kind'], matchcorr._untuple(data['tree']))
+        ns = data.get('ns')
+        c = sv.compile(data['selector'], ns)
+        els = gen.elements(top)
+        full = [enc.path_of(x) for x in c.select(top)]
+        alone = [enc.path_of(x) for x in els if cm.CSSMatch(c.selectors, top, ns, 0).match(x)]
+        print(json.dumps({'select': full, 'each_alone': alone}))
+        if full != alone:
             print(f'VIOLATION property={PID} replay={path}')
             return 1
     return 0
